@@ -47,12 +47,30 @@ func delegatedExits(e *Eval, fn *ssa.Function) []Exit {
 		}
 		ev := asErr(x.Vals[len(x.Vals)-1])
 		call, _ := ev.Site.(*ssa.Call)
-		if ev.Kind != ekFrom || call == nil || call.Call.StaticCallee() == nil || len(call.Call.StaticCallee().Blocks) == 0 {
+		if ev.Kind != ekFrom || call == nil || call.Call.IsInvoke() {
 			out = append(out, x)
 			return
 		}
 		callee := call.Call.StaticCallee()
 		var inner []Exit
+		if callee == nil {
+			// a call through a function value the evaluation resolved (a callback, a closure held
+			// in a variable): the exits recorded for that call site, if they are all of one function
+			for _, cx := range e.Exits {
+				if cx.Site == ssa.Instruction(call) {
+					if callee == nil {
+						callee = cx.Fn
+					} else if callee != cx.Fn {
+						out = append(out, x)
+						return
+					}
+				}
+			}
+		}
+		if callee == nil || len(callee.Blocks) == 0 {
+			out = append(out, x)
+			return
+		}
 		for _, cx := range e.Exits {
 			if cx.Fn == callee && cx.Site == ssa.Instruction(call) {
 				inner = append(inner, cx)
@@ -86,6 +104,72 @@ func delegatedExits(e *Eval, fn *ssa.Function) []Exit {
 		expand(x, 0)
 	}
 	return out
+}
+
+// concatAsJoin: s is a concatenation w0 + sep + w1 + sep + … + w(n-1) of list words with one
+// constant separator (what `m += sep; m += words[i]` leaves when the loop is evaluated
+// iteration by iteration): the Join it equals.
+func concatAsJoin(s StrV) (StrV, bool) {
+	if s.Kind != skConcat {
+		return s, false
+	}
+	var parts []StrV
+	var flat func(v AV) bool
+	flat = func(v AV) bool {
+		sv, ok := v.(StrV)
+		if !ok {
+			return false
+		}
+		switch {
+		case sv.Kind == skConcat:
+			for _, p := range sv.Parts {
+				if !flat(p) {
+					return false
+				}
+			}
+		case sv.Kind == skConst && sv.S == "":
+		default:
+			parts = append(parts, sv)
+		}
+		return true
+	}
+	if !flat(s) || len(parts) < 3 || len(parts)%2 == 0 {
+		return s, false
+	}
+	sep := parts[1]
+	if sep.Kind != skConst {
+		return s, false
+	}
+	var words []AV
+	for i, p := range parts {
+		if i%2 == 1 {
+			if p.Kind != skConst || p.S != sep.S {
+				return s, false
+			}
+			continue
+		}
+		if p.Kind != skElem {
+			return s, false
+		}
+		words = append(words, p)
+	}
+	return StrV{Kind: skJoin, Arr: &ArrC{N: CInt(int64(len(words))), Elems: words}, Sep: sep}, true
+}
+
+// checksumExitInLoop: some exit of the evaluation returns the checksum sentinel from inside a loop.
+func checksumExitInLoop(e *Eval, fn *ssa.Function, sent *ssa.Global) bool {
+	if sent == nil {
+		return false
+	}
+	for _, x := range delegatedExits(e, fn) {
+		if !x.InLoop || len(x.Vals) == 0 {
+			continue
+		}
+		if ev := asErr(x.Vals[len(x.Vals)-1]); (ev.Kind == ekSentinel || ev.Kind == ekWrap) && ev.G == sent {
+			return true
+		}
+	}
+	return false
 }
 
 // ruleT2T6 covers the encoder side: list selection (T2), separator (T6), size coherence (G4)
@@ -124,7 +208,7 @@ func (a *Analysis) ruleT2T6() {
 				var join *StrV
 				var joinPos string
 				nSucc := 0
-				for _, x := range topExits(e, en.fn) {
+				for _, x := range delegatedExits(e, en.fn) {
 					if len(x.Vals) != 2 {
 						continue
 					}
@@ -135,6 +219,9 @@ func (a *Analysis) ruleT2T6() {
 					nSucc++
 					if s, ok := x.Vals[0].(StrV); ok {
 						s := s
+						if j, ok := concatAsJoin(s); ok {
+							s = j // `m += sep; m += word` unrolled: the same thing as a Join
+						}
 						join = &s
 						joinPos = a.P.InstrPos(x.Ret)
 					}
@@ -402,6 +489,13 @@ func (a *Analysis) ruleLayouts() {
 			e := a.eval(a.CM, ctx)
 			nctx++
 			pos := a.P.Pos(a.CM.Pos())
+			if m := a.MapOf[lc.Name]; m == nil || a.G.MapBits[m] == 0 {
+				// what the lookups yield is not established (T3 did not recognise how the map of
+				// this language is built): the layout obligations cannot be judged either way
+				r.Unk("L2", fk+"/compared-values", pos, ctx.Name, "the values of the lookup map for %s are not established (T3): the compared values cannot be described", lc.Name)
+				r.Unk("L2w", fk+"/hash-input", pos, ctx.Name, "the values of the lookup map for %s are not established (T3)", lc.Name)
+				continue
+			}
 			if sz == nil {
 				r.Bad("L2w", fk+"/size", pos, ctx.Name, "%d tokens get past the count gate", W)
 				continue
@@ -514,6 +608,12 @@ func (a *Analysis) ruleLayouts() {
 					if cmp != nil {
 						nilIf = cmp.If
 					}
+					if cmp == nil && checksumExitInLoop(e, a.CM, a.sentinel("ErrChecksumIncorrect")) {
+						// the checksum is compared piece by piece inside a loop that returns the
+						// checksum error on a mismatch: not a comparison these rules can read
+						r.Unk("L3+L3c", fk+"/accept-guard", xp, ctx.Name, "return nil follows a loop that returns the checksum error from inside: the comparison is made piece by piece, which is not one of the recognised forms")
+						continue
+					}
 					if cmp == nil {
 						r.Bad("L3", fk+"/accept-guard", xp, ctx.Name, "return nil is not guarded by a checksum comparison")
 						r.OK("L3c", fk+"/accept-guard", xp, ctx.Name, "once every word was found, return nil is unconditional: no valid sentence is rejected here (that invalid ones are accepted is L3's business)")
@@ -551,9 +651,33 @@ func (a *Analysis) ruleLayouts() {
 						la, okA = ia.Bits, ia.Kind == ikBits
 						lb, okB = ib.Bits, ib.Kind == ikBits
 					}
+					// both sides shifted left by the same amount (`sum[0]&0xf0 != cs` with cs the
+					// checksum in the top bits of its byte): the same comparison without the shift
+					if okA && okB {
+						na, nb := la.Norm(), lb.Norm()
+						if len(na) > 1 && len(nb) > 1 && na[0].Sym == "" && nb[0].Sym == "" && na[0].W.Const() && na[0].W == nb[0].W {
+							if sa, ok1 := la.Shr(na[0].W.A); ok1 {
+								if sb, ok2 := lb.Shr(nb[0].W.A); ok2 {
+									la, lb = sa, sb
+								}
+							}
+						}
+					}
+					unknownIn := func(l Layout) bool {
+						for _, f := range l {
+							if strings.Contains(f.Sym, "⊤") {
+								return true
+							}
+						}
+						return false
+					}
 					switch {
 					case !okA || !okB:
 						r.Unk("L2", fk+"/compared-values", xp, ctx.Name, "cannot describe the compared values as bit layouts: %v", bv)
+					case unknownIn(la) || unknownIn(lb):
+						// a digest of bytes the evaluation does not know (a buffer from a pool, a value
+						// behind an unresolved pointer): nothing can be said about it either way
+						r.Unk("L2", fk+"/compared-values", xp, ctx.Name, "the compared values depend on content the evaluation does not know: %v = %v", la, lb)
 					case (la.Equal(wantA) && lb.Equal(wantB)) || (la.Equal(wantB) && lb.Equal(wantA)):
 						r.OK("L2", fk+"/compared-values", xp, ctx.Name, "compares SHA256(ENT bytes)⟨top %d bits of byte 0⟩ with the low %d bits of the %d-word integer; ENT bytes = Fixed(acc⟨%d:⟩, %d)", cs, cs, W, cs, L)
 					default:
